@@ -234,19 +234,25 @@ def run_forced(binary, cmds, sched, workdir, tag, watchdog=20.0, suffix=True):
     for c in cmds:
         s.send(c)
     extra = []
+    unanswered = False
     if suffix and (not cmds or cmds[-1] != "quit"):
+        # free-running suffix once the scheduled prefix is through: stop, then every go must have been answered
+        # (C05: "each go is answered by exactly one bestmove ... after stop"), then isready, quit
+        n_go = sum(1 for c in cmds if c.startswith("go"))
+        s.send("stop")
+        if not s.wait_count("bestmove", n_go, watchdog):
+            unanswered = True
+        s.send("isready")
+        s.send("quit")
         extra = ["stop", "isready", "quit"]
-        # give the scheduled prefix time to complete before the free-running suffix is queued; the
-        # suffix commands are gated like any other only while their labels remain in the schedule
-        for c in extra:
-            s.send(c)
     rc = s.finish(watchdog)
     ev = read_events(tp)
     consumed = 0
     for a in ev:
         if consumed < len(sched) and a == sched[consumed]:
             consumed += 1
-    return {"rc": rc, "out": s.out(), "events": ev, "consumed": consumed, "cmds": cmds + extra, "sched": sched}
+    return {"rc": rc, "out": s.out(), "events": ev, "consumed": consumed, "cmds": cmds + extra, "sched": sched,
+            "unanswered": unanswered}
 
 
 def expectations(res):
@@ -257,6 +263,9 @@ def expectations(res):
     problems = []
     if res["rc"] is None:
         problems.append("process did not exit (killed by the watchdog)")
+    elif res.get("unanswered"):
+        problems.append("a go was not answered by bestmove within the watchdog after stop (bestmove %d, go %d)" %
+                        (count(out, "bestmove"), sum(1 for c in cmds if c.startswith("go"))))
     n_ready = sum(1 for c in cmds if c == "isready")
     n_go = sum(1 for c in cmds if c.startswith("go"))
     if "quit" in cmds:
